@@ -2,7 +2,7 @@
    Statements only; every proof is `exact <lemma>`.  gen.ModeGen is regenerated from
    /repo/src/mode.rs on every run, so these theorems are about the current source. *)
 From Coq Require Import List NArith Bool.
-From FS Require Import lib.Fin spec.ModeSpec gen.ModeGen proofs.C04_mode.
+From FS Require Import lib.Str lib.Fin spec.ModeSpec gen.ModeGen gen.ExtGen proofs.C04_mode proofs.C04_ext.
 Import ListNotations.
 Open Scope N_scope.
 
@@ -27,6 +27,21 @@ Proof.
   - exact (first_char_matches m Hm t Ht).
 Qed.
 
+(* the extension-class columns (is_archive, is_source, ...): util::has_extension, regenerated from the source, is
+   true exactly when the lower-cased name ENDS WITH one of the configured endings - whatever their shape
+   (compound `.tar.gz`, dot-less `makefile`) - in any letter case of the name; and the default lists of
+   config.rs are themselves lower-case *)
+Theorem C04_extension_class : forall name exts,
+  has_extension name exts = true <-> exists e r, In e exts /\ ascii_lower name = (r ++ e)%list.
+Proof. exact ext_class_spec. Qed.
+Theorem C04_extension_class_any_case : forall name exts, has_extension (ascii_lower name) exts = has_extension name exts.
+Proof. exact ext_class_case. Qed.
+Theorem C04_default_lists_lowercase : lists_lowercase = true.
+Proof. exact default_lists_lowercase. Qed.
+
 Print Assumptions C04_mode_string.
+Print Assumptions C04_extension_class.
+Print Assumptions C04_extension_class_any_case.
+Print Assumptions C04_default_lists_lowercase.
 Print Assumptions C04_perm_bits_agree.
 Print Assumptions C04_exactly_one_type.
